@@ -26,7 +26,7 @@ RULE = ('every macro name (6 ops x CMP/IF/IFCMP/ASSERT_/ASSERT_CMP, FAIL, ASSERT
         'distinct (macro, annotations, bodies, stack) that the parser accepted and the reference defines; names the '
         'reference does not define are enumerated (all strings over {P,A,I}) and get no verdict')
 BOUND = {
-    'quick': 'trees <= 5 leaves (21 shapes) + all 1080 strings P[PAI]{3..6}R and UN-; D I/U^n P n<=6; paths <= 4',
+    'quick': 'trees <= 6 leaves (63 shapes) + all 1080 strings P[PAI]{3..6}R and UN-; D I/U^n P n<=6; paths <= 4',
     'thorough': 'trees <= 8 leaves (624 shapes) + all 9828 strings P[PAI]{3..8}R and UN-; D I/U^n P n<=9; paths <= 6',
 }
 ASSUMPTIONS = [
@@ -149,8 +149,10 @@ def impl_to_ref(obj):
     if prim == 'option':
         return None if obj.item is None else ('Some', impl_to_ref(obj.item))
     if prim == 'or':
-        left, right = obj.items
-        return ('L', impl_to_ref(left)) if left is not None else ('R', impl_to_ref(right))
+        left, right = obj.items      # the absent side is an `undefined` sentinel object
+        has_left, has_right = hasattr(type(left), 'prim'), hasattr(type(right), 'prim')
+        assert has_left != has_right, obj.items
+        return ('L', impl_to_ref(left)) if has_left else ('R', impl_to_ref(right))
     raise AssertionError(f'unexpected value class {prim}')
 
 
@@ -226,7 +228,7 @@ def check(case):
 
 # --- enumeration --------------------------------------------------------------------------------------
 
-MIXED = [3, True, (), (4, 54), ('Some', 5), None, ('L', 6), ('R', 7), False, (8, (58, ())), 9, ('Some', 10)]
+MIXED = [3, True, ('R', 7), (4, 54), ('Some', 5), None, ('L', 6), (), False, (8, (58, ())), 9, ('Some', 10)]
 TAILS = [[], [91, 92]]
 
 
@@ -271,7 +273,7 @@ def tree_shapes(max_leaves):
 
 
 def bounds(tier):
-    return {'leaves': 5, 'allstr': 6, 'dn': 6, 'path': 4} if tier == 'quick' else {'leaves': 8, 'allstr': 8, 'dn': 9, 'path': 6}
+    return {'leaves': 6, 'allstr': 6, 'dn': 6, 'path': 4} if tier == 'quick' else {'leaves': 8, 'allstr': 8, 'dn': 9, 'path': 6}
 
 
 def paths(lo, hi):
@@ -282,9 +284,9 @@ def cases_for(group, tier):
     """Yield cases (dicts) or ('name-only', name) for names to classify without execution."""
     b = bounds(tier)
     J = lambda st: [enc(v) for v in st]  # noqa: E731
-    if group == 'compare':
+    if group.startswith('compare'):
         pairs = [(a, c) for a in (-1, 0, 1) for c in (-1, 0, 1)] + [(-5, 7), (2 ** 70, 2 ** 70 - 1)]
-        for op in OPS:
+        for op in [group.split(':')[1]]:
             for ann in ([], ['@v']):
                 for a, c in pairs:
                     for t in TAILS:
@@ -386,12 +388,13 @@ def cases_for(group, tier):
 
 
 def shards(tier, seed):
-    nt = 4 if tier == 'quick' else 32
-    out = ['compare', 'assert', 'dip']
+    nt = 8 if tier == 'quick' else 48
+    out = [f'compare:{op}' for op in OPS] + ['assert', 'dip']
     out += [f'tree:{k}:{nt}' for k in range(nt)]
     out += [f'allstr:{k}:4' for k in range(4)]
+    np_ = 4 if tier == 'quick' else 12
     for kind in ('CxR', 'SET', 'MAP'):
-        out += [f'path:{kind}:{k}:4' for k in range(4)]
+        out += [f'path:{kind}:{k}:{np_}' for k in range(np_)]
     return out
 
 
